@@ -8,7 +8,7 @@ CHECKS = {
    note="NEON cannot execute here; lengths > 320 not enumerated."),
  "C12": dict(level="exploration", design="5/C12", technique="the C11 kernel grid, the complete slab pair grid and whole encode/decode workloads enumerated under a guard-page allocator (every heap operand flush against a PROT_NONE page, at its end and at its start) in child processes",
    text="Out-of-bounds accesses are made observable rather than inferred: a page-heap global allocator places every heap allocation against an inaccessible page; the complete kernel grid, all (dest, src) pairs of 1..6-symbol slabs with four mappings, and encode/decode workloads run under both placements; a fault is a violation with the case in flight as replay. Aliasing/range refusals and the index-range facts of the unchecked table look-ups are enumerated completely.",
-   note="Stacked-borrows aliasing is not judged (Miri part not built); NEON cannot execute."),
+   note="Stacked-borrows aliasing is judged by Miri on fixed replays in the thorough tier only (harness-miri); NEON cannot execute."),
  "C13": dict(level="exploration", design="5/C13", technique="exhaustive enumeration of all 2^32 payload IDs and per-field-complete OTI grid against reference layouts",
    text="Every 4-byte payload ID (thorough: all 2^32; quick: 8 SBNs x all 2^24 ESIs) is parsed, read back and re-serialised and compared with the RFC layout written independently; OTI fields are each enumerated over their whole width against three backgrounds, packets over payload lengths 0..=300 and 65535.",
    note="The 88-bit OTI space is covered per field (each output byte is a function of one field, which the grid verifies lane by lane), not as a product. Big-endian RFC 3.2/3.3 layout as written in rfcref."),
